@@ -218,10 +218,12 @@ func RunPlan(t *testing.T, l Lens, p *Plan, keepLog bool) *Result {
 		func() {
 			defer func() {
 				if r := recover(); r != nil {
-					if res != nil && res.NativeStuck > 0 && strings.Contains(fmt.Sprint(r), "deadlock") {
-						// expected: the run ended with tasks of the code under test blocked for good on something
-						// the scheduler does not own (the lens has judged that); their goroutines cannot be ended,
-						// which is what the bubble complains about
+					if res != nil && strings.Contains(fmt.Sprint(r), "deadlock") {
+						// The lens has returned its result; what the bubble complains about is goroutines that are
+						// still blocked at its end: tasks of the code under test blocked for good on something the
+						// scheduler does not own (NativeStuck; the lens has judged that), or goroutines the code
+						// under test started and never collected. They cannot be ended from here; the verdict stands.
+						res.Probe("goroutines_left_blocked_at_the_end_of_the_bubble")
 						return
 					}
 					// a panic that escaped the bubble (deadlock at bubble end or harness bug)
